@@ -129,6 +129,8 @@ pub struct Session {
     pub ctx: Context,
     pub shader_calls: Cell<u64>,
     pub shader_somes: Cell<u64>,
+    /// when Some, every fragment that reaches the shader is logged as (x, y, reciprocal depth)
+    pub record: std::cell::RefCell<Option<Vec<(u32, u32, f32)>>>,
 }
 
 pub fn full_dims(sc: &Scene) -> (u32, u32, u32, u32) {
@@ -148,7 +150,7 @@ impl Session {
         });
         let bg = sc.bg_depth.0;
         let depth = Buf2::new_with((fw, fh), |_, _| bg);
-        Session { sc: sc.clone(), color, depth, win: [ox, oy, sc.bw, sc.bh], ctx: sc.cfg.context(), shader_calls: Cell::new(0), shader_somes: Cell::new(0) }
+        Session { sc: sc.clone(), color, depth, win: [ox, oy, sc.bw, sc.bh], ctx: sc.cfg.context(), shader_calls: Cell::new(0), shader_somes: Cell::new(0), record: std::cell::RefCell::new(None) }
     }
 
     pub fn has_depth(&self) -> bool {
@@ -198,6 +200,7 @@ impl Session {
         let ctx = &self.ctx; // the same Context across calls: statistics must accumulate in it
         let calls = &self.shader_calls;
         let somes = &self.shader_somes;
+        let record = &self.record;
         let color = &mut self.color;
         let depth = &mut self.depth;
         let r = catch(move || {
@@ -205,7 +208,7 @@ impl Session {
                 TargetKind::FbOwned => {
                     // the window is the whole buffer here
                     let mut fb = Framebuf { color_buf: std::mem::replace(color, Buf2::new((0, 0))), depth_buf: std::mem::replace(depth, Buf2::new((0, 0))) };
-                    let res = catch(|| draw_into(&sc, which, &mut fb, ctx, calls, somes));
+                    let res = catch(|| draw_into(&sc, which, &mut fb, ctx, calls, somes, record));
                     *color = fb.color_buf;
                     *depth = fb.depth_buf;
                     if let Err(p) = res {
@@ -214,18 +217,18 @@ impl Session {
                 }
                 TargetKind::FbRef => {
                     let mut fb = Framebuf { color_buf: &mut *color, depth_buf: &mut *depth };
-                    draw_into(&sc, which, &mut fb, ctx, calls, somes);
+                    draw_into(&sc, which, &mut fb, ctx, calls, somes, record);
                 }
                 TargetKind::FbWindow { .. } => {
                     let mut fb = Framebuf { color_buf: color.slice_mut(rect.clone()), depth_buf: depth.slice_mut(rect.clone()) };
-                    draw_into(&sc, which, &mut fb, ctx, calls, somes);
+                    draw_into(&sc, which, &mut fb, ctx, calls, somes, record);
                 }
                 TargetKind::ColorOnly => {
-                    draw_into(&sc, which, &mut *color, ctx, calls, somes);
+                    draw_into(&sc, which, &mut *color, ctx, calls, somes, record);
                 }
                 TargetKind::ColorOnlyWindow { .. } => {
                     let mut t: MutSlice2<u32> = color.slice_mut(rect.clone());
-                    draw_into(&sc, which, &mut t, ctx, calls, somes);
+                    draw_into(&sc, which, &mut t, ctx, calls, somes, record);
                 }
             }
         });
@@ -242,11 +245,14 @@ fn viewport_matrix(sc: &Scene) -> Mat4x4<re::render::NdcToScreen> {
     viewport(pt2(sc.vp[0], sc.vp[1])..pt2(sc.vp[2], sc.vp[3]))
 }
 
-fn draw_into<T: Target>(sc: &Scene, which: &[usize], target: &mut T, ctx: &Context, calls: &Cell<u64>, somes: &Cell<u64>) {
+fn draw_into<T: Target>(sc: &Scene, which: &[usize], target: &mut T, ctx: &Context, calls: &Cell<u64>, somes: &Cell<u64>, record: &std::cell::RefCell<Option<Vec<(u32, u32, f32)>>>) {
     let discard = sc.cfg.discard;
     let id_mode = sc.shader_mode == 1;
     let fs = move |f: Frag<f32>| -> Option<Color4> {
         calls.set(calls.get() + 1);
+        if let Some(r) = record.borrow_mut().as_mut() {
+            r.push((f.pos.x() as u32, f.pos.y() as u32, f.pos.z()));
+        }
         if discard {
             let (x, y) = (f.pos.x() as usize, f.pos.y() as usize);
             if discards(x, y) {
